@@ -704,7 +704,11 @@ class Machine:
         else:
             t_ok = s.feasible(e); f_ok = s.feasible(z3.Not(e))
             if t_ok and f_ok:
-                d = True; s.pending.append(s.taken + [False])
+                d = True
+                if getattr(s, 'guide', None):      # follow the branch a given generic point takes first (the other side stays pending)
+                    v = z3.simplify(z3.substitute(e, *s.guide))
+                    if z3.is_false(v): d = False
+                s.pending.append(s.taken + [not d])
             elif not t_ok and not f_ok: raise Infeasible('path condition became infeasible')
             else: d = t_ok
         s.taken.append(d); s.assume(e if d else z3.Not(e))
@@ -887,6 +891,12 @@ class Machine:
             if op in ('add', 'sub') and isinstance(x, Ptr) and isinstance(y, int):
                 return Ptr(x.b, x.o + (sgn(y, w) if op == 'add' else -sgn(y, w)))
             if op == 'add' and isinstance(y, Ptr) and isinstance(x, int): return Ptr(y.b, y.o + sgn(x, w))
+            if w == 64 and op in ('add', 'sub') and isinstance(x, Ptr) and (isBV(y) or isinstance(y, int)):     # pointer +- symbolic integer: offset arithmetic in 64-bit bit-vectors
+                xo = bve(x.o, 64) if not isinstance(x.o, int) else z3.BitVecVal(x.o & ((1 << 64) - 1), 64); yo = bve(y, 64)
+                return Ptr(x.b, mkbv(xo + yo if op == 'add' else xo - yo, 64))
+            if w == 64 and op == 'add' and isinstance(y, Ptr) and isBV(x):
+                yo = bve(y.o, 64) if not isinstance(y.o, int) else z3.BitVecVal(y.o & ((1 << 64) - 1), 64)
+                return Ptr(y.b, mkbv(yo + bve(x, 64), 64))
             raise Unsupported(f"int op {op} on pointer")
         if isinstance(x, Bits) or isinstance(y, Bits): raise Unsupported(f'int op {op} on bits of symbolic double')
         if isinstance(x, SB) or isinstance(y, SB):
@@ -1171,14 +1181,14 @@ class PathResult:
     __slots__ = ('out', 'ret', 'm', 'err', 'ctx')
     def __init__(s, out, ret, m, err, ctx): s.out = out; s.ret = ret; s.m = m; s.err = err; s.ctx = ctx
 
-def explore(mod, fn, setup, max_paths=100000, ubcheck=True, max_steps=20_000_000, on_path=None):
+def explore(mod, fn, setup, max_paths=100000, ubcheck=True, max_steps=20_000_000, on_path=None, guide=None):
     """DFS over decision prefixes.  setup(m) -> (args, ctx).  Yields PathResult per path (out in ret/throw/ub/unsupported/budget)."""
     work = [[]]; n = 0
     while work:
         preset = work.pop()
         if n >= max_paths:
             yield PathResult('pathbudget', None, None, f'path budget {max_paths} exhausted with {len(work) + 1} prefixes pending', None); return
-        m = Machine(mod, preset=preset, ubcheck=ubcheck, max_steps=max_steps)
+        m = Machine(mod, preset=preset, ubcheck=ubcheck, max_steps=max_steps); m.guide = guide
         args, ctx = setup(m)
         try:
             r = m.call(fn, args); res = PathResult('ret', r, m, None, ctx)
